@@ -44,6 +44,7 @@ def plan(tier, seed):
     cases = [{"kind": "shipped", "gene": g} for g in tables.shipped_gene_names()]
     n = 320 if tier == "quick" else 3000
     cases += [{"kind": "gen", "seed": seed, "k": k} for k in range(n)]
+    cases += [{"kind": "toymut", "seed": seed, "k": k} for k in range(40 if tier == "quick" else 400)]
     return cases
 
 
@@ -204,8 +205,10 @@ def check_catalogue(res, g, model, desc):
         cfg = g.cn_configs[f]
 
         def retained(m):
-            hit = model.region_of(m.pos, 0)
-            return hit is not None and cfg.cn[0][hit[1]] > 0
+            # (a RefSeq may span the pseudogene copy as well: a variant located there is retained iff the fused
+            # structure has that part of the pseudogene)
+            hit = model.region_of(m.pos, 0) or model.region_of(m.pos)
+            return hit is not None and cfg.cn[hit[0]][hit[1]] > 0
 
         exp = {m for m in majors[parent].func_muts if retained(m)}
         res.check("partial_variants", set(a.func_muts) == exp and a.cn_config == f,
@@ -307,9 +310,78 @@ def check_builds(res, g1, m1, g2, m2, desc):
     res.check("build_independent", t1 == t2, "tandem list differs between builds", **desc)
 
 
+def toy_mutant(rng):
+    """The test-suite's toy database (its RefSeq spans gene *and* pseudogene copy, opposite strands per build) with
+    a random allele table: substitutions anywhere on the RefSeq - also inside the pseudogene copy -, both fusions,
+    the deletion."""
+    import yaml
+
+    with open(os.path.join(util.REPO, "aldy/tests/resources/toy.yml")) as f:
+        y = yaml.safe_load(f)
+    seq = "".join(y["reference"]["seq"].split())
+    alleles = {"TOY*1.001": {"label": "TOY*1", "activity": "normal function", "mutations": []}}
+    used = set()
+
+    def snp(lo, hi, functional):
+        for _ in range(50):
+            p = rng.randint(lo, hi)
+            if any(abs(p - q) < 3 for q in used):
+                continue
+            used.add(p)
+            b = seq[p - 1]
+            alt = rng.choice([x for x in "ACGT" if x != b])
+            return [p, f"{b}>{alt}", "-", rng.choice(["functional", "P34S"])] if functional else [p, f"{b}>{alt}"]
+        return None
+
+    pool_f = [v for v in (snp(12, 98, True), snp(12, 98, True), snp(104, 196, True), snp(104, 196, True),
+                          snp(104, 196, True)) if v]
+    pool_s = [v for v in (snp(12, 98, False), snp(12, 98, False), snp(104, 196, False), snp(104, 196, False)) if v]
+    num = 2
+    for _ in range(rng.randint(2, 5)):
+        core = rng.sample(pool_f, min(len(pool_f), rng.choice([1, 1, 2])))
+        for j in range(rng.choice([1, 2, 3])):
+            sil = rng.sample(pool_s, min(len(pool_s), rng.choice([0, 1, 2]))) if j else []
+            alleles[f"TOY*{num}.{j + 1:03d}"] = {"mutations": [list(m) for m in core + sil]}
+        alleles[f"TOY*{num}.001"]["label"] = f"TOY*{num}"
+        num += 1
+    for j in range(rng.choice([0, 1, 2])):
+        sil = rng.sample(pool_s, min(len(pool_s), rng.choice([1, 2])))
+        alleles[f"TOY*1.{j + 2:03d}"] = {"mutations": [list(m) for m in sil]}
+    alleles["TOY*40.001"] = {"label": "TOY*40", "mutations": [["TOYP", rng.choice(["i2-", "e2-", "e3-"])]]}
+    r5 = [["TOYP", rng.choice(["e2+", "i2+"])]]
+    if pool_f and rng.random() < 0.5:
+        r5.append(list(rng.choice(pool_f)))
+    alleles["TOY*41.001"] = {"label": "TOY*41", "mutations": r5}
+    alleles["TOY*42.001"] = {"label": "TOY*42DEL", "mutations": [["TOY", "deletion"]]}
+    y["alleles"] = alleles
+    y["structure"]["tandems"] = [["2", "1"]]
+    return yaml.dump(y, default_flow_style=None, width=100)
+
+
 def run(case):
     util.import_aldy()
     res = Res()
+    if case["kind"] == "toymut":
+        from aldy.gene import Gene
+
+        rng = util.rng_for("c09t", case["seed"], case["k"])
+        text = toy_mutant(rng)
+        path = os.path.join(util.scratch_dir(), f"toymut_{case['k']}.yml")
+        with open(path, "w") as f:
+            f.write(text)
+        loaded = {}
+        for genome in ("hg19", "hg38"):
+            model = catalogue.YamlModel(text, genome)
+            g = Gene(path, genome=genome)
+            desc = {"gene": f"toymut{case['seed']}.{case['k']}", "genome": genome, "strand": model.strand}
+            n = check_catalogue(res, g, model, desc)
+            loaded[genome] = (g, model)
+        check_builds(res, *loaded["hg19"], *loaded["hg38"], {"gene": desc["gene"], "strands": [1, -1]})
+        res.nontrivial = n >= 2
+        res.fp = util.fingerprint(case)
+        if case["k"] < 1:
+            res.sample = {"gene": desc["gene"], "majors": list(loaded["hg19"][0].alleles)}
+        return res
     if case["kind"] == "shipped":
         path = os.path.join(util.REPO, "aldy/resources/genes", case["gene"] + ".yml")
         with open(path) as f:
